@@ -82,6 +82,18 @@ func judge(sc *scen.Scenario, res *scen.Result, runErr error) (string, error) {
 				}
 			}
 		}
+		if res.Stall.Verdict == "IDLE" {
+			// the very first call of the session (the one that introduces the connection to the server)
+			for _, n := range res.Notes {
+				if strings.HasPrefix(n, "warm-up request failed") {
+					for _, ev := range res.Events {
+						if ev.Kind == "sent" && ev.Ctor == "f35c6d01" {
+							return "violation", fmt.Errorf("the first call on the connection never returns although the server sent its result (rpc_result in message %d); receive loop idle; client warnings: %v", ev.MsgID, lastN(res.Warnings, 2))
+						}
+					}
+				}
+			}
+		}
 		return "inconclusive", fmt.Errorf("INFRA: calls unfinished, state inspection inconclusive: %s", res.Stall.LoopAt)
 	}
 	got := map[int]scen.CallResult{}
@@ -221,6 +233,9 @@ func gen(t *rapid.T) (*scen.Scenario, []string) {
 	cls = append(cls, fmt.Sprintf("gomaxprocs=%d", sc.GoMaxProcs))
 	if sc.RPC.Fresh {
 		cls = append(cls, "session:keyed-in-this-process")
+	}
+	if sc.ServerClockOffset > 0 {
+		cls = append(cls, "server-clock-after-2038")
 	}
 	if ncallers >= 2 {
 		cls = append(cls, "concurrent-callers")
